@@ -562,11 +562,27 @@ pub fn tail_probes(fslog: &[FsRec], dirkey: &str, cfg: &Cfg, opts: &Value, seed:
     if cuts.len() > max_cuts && !opts["all_cuts"].as_bool().unwrap_or(false) {
         // all boundaries and their neighbours, plus a random sample
         let mut keep: Vec<usize> = vec![0, 1, len.saturating_sub(1), len];
-        for b in &bounds {
+        for (k, b) in bounds.iter().enumerate() {
             keep.push(*b);
             keep.push(b.saturating_sub(1));
             keep.push((*b + 1).min(len));
             keep.push((*b + 4).min(len));
+            // inside every field of the record that starts here: ids, length prefix of a payload, payload body,
+            // checksum (layout knowledge only chooses positions)
+            let nb = bounds.get(k + 1).copied().unwrap_or(len);
+            if nb > *b + 1 {
+                for d in [12usize, 20, 21, 23, 24, 26] {
+                    if *b + d < nb {
+                        keep.push(*b + d);
+                    }
+                }
+                keep.push(*b + (nb - *b) / 2);
+                for d in [9usize, 8, 4] {
+                    if nb > *b + d {
+                        keep.push(nb - d);
+                    }
+                }
+            }
         }
         while keep.len() < max_cuts {
             keep.push(rng.below(len as u64 + 1) as usize);
